@@ -423,7 +423,7 @@ def gen_hand_recipe(rng: random.Random, semiring: str) -> dict[str, Any]:
     nc = rng.choice([1, 1, 2])
     top = _gen_pspec(rng, (nc, K), positive=positive, dtype=dtype, learnable=rng.random() < 0.8,
                      acts=acts)
-    if rng.random() < 0.35:
+    if rng.random() < (0.7 if gaussian else 0.35):
         # one initialiser *object* shared by several parameters, possibly of different rank
         # (the lower-rank ones are constructed first: inputs, then sums, then the top)
         r = rng.random()
